@@ -581,6 +581,8 @@ def build_cases(ctx):
     cases = []
     # ---- full factorial (coded)
     cases.append(("fullfact", {"levels": []}))
+    for lv in ([7, 7, 2], [49, 2], [7, 14, 3], [103, 2], [107, 3], [7, 23, 2], [11, 17, 2], [49, 3, 2]):
+        cases.append(("fullfact", {"levels": list(lv)}))       # products of leading level counts whose reciprocal is inexact
     n_ff = 120 if q else 1500
     cap = 1500 if q else 20000
     for _ in range(n_ff):
